@@ -346,6 +346,13 @@ func (r *rewriter) imports() {
 			}
 			r.counts["sync-import"]++
 		}
+		if p == "sync/atomic" && r.modes["sched"] {
+			if im.Name == nil {
+				im.Name = ast.NewIdent("atomic")
+			}
+			im.Path.Value = strconv.Quote("verif/vatomic")
+			r.counts["atomic-import"]++
+		}
 		if p == "math/rand" && r.modes["rand"] {
 			if im.Name == nil {
 				im.Name = ast.NewIdent("rand")
